@@ -386,6 +386,12 @@ class Body:
                 nt = Term(k, d, ct.line, ct.macros)
             self._blocks.append(Block(cb.idx + bo, stmts, nt, cb.cleanup))
         self._dbg.extend((nm, mp(p_)) for nm, p_ in cal.dbg)
+        # `let retry = helper(..)`: the helper's (unnamed) return slot carries the name of the variable it initialises, so that rules
+        # which follow the user's variable by name see its per-arm definitions as they did before the extraction
+        if dest.is_local():
+            dn = self.local_name(dest.local)
+            if dn and not any(p_.is_local() and p_.local == lo for _, p_ in self._dbg):
+                self._dbg.append((dn, Place(lo)))
         self._thread_returns(lo, dest, ret_target, bo, bo + len(cal.blocks))
         if not hasattr(self, "frames"):
             self.frames = []
@@ -1551,6 +1557,15 @@ def _enum_alts(prog, g):
                 if len(rest) == 1:
                     return [Guard("is", a=x, name=rest[0], enum=y[1], edge=g.edge, line=g.line, macros=g.macros)]
                 return [Guard("isnot", a=x, name=(y[2],), enum=y[1], edge=g.edge, line=g.line, macros=g.macros)]
+    if g.kind == "rel" and g.op == "Eq":
+        a, b = unwrap_dv(g.a), unwrap_dv(g.b)
+        for x, y in ((a, b), (b, a)):
+            if y[0] == "agg" and y[2] == "Some" and len(y[3]) == 1 and x[0] != "agg":
+                inner = y[3][0][1]
+                out = [Guard("is", a=x, name="Some", enum="std::option::Option", edge=g.edge, line=g.line, macros=g.macros)]
+                if inner[0] == "agg" and not inner[3] and _fieldless(prog, inner[1], inner[2]):
+                    out.append(Guard("is", a=("field", ("variant", x, "Some"), "0"), name=inner[2], enum=inner[1], edge=g.edge, line=g.line, macros=g.macros))
+                return out
     if g.kind == "is" and g.enum and g.enum != "try" and _fieldless(prog, g.enum, g.name):
         return [Guard("rel", op="Eq", a=g.a, b=("agg", g.enum, g.name, ()), edge=g.edge, line=g.line, macros=g.macros)]
     return []
